@@ -87,7 +87,7 @@ WeakKeys == {Key("rsa512", "rsa", 512, 65537, TRUE), Key("rsa1024", "rsa", 1024,
              Key("x25519", "x25519", 256, 0, TRUE)}
 MoreGoodKeys == {Key("rsa4096", "rsa", 4096, 65537, TRUE), Key("p521", "ecdsa", 521, 0, TRUE),
                  Key("rsa2048bige", "rsa", 2048, MaxI, TRUE)}
-BadEncodings == {Key(id, "none", 0, 0, FALSE) : id \in {"empty", "truncated", "retagged", "wrongarmor", "garbagepem",
+BadEncodings == {Key(id, "none", 0, 0, FALSE) : id \in {"empty", "truncated", "retagged", "wrongarmor", "garbagepem", "certblob",
                                                        "huge", "sshoptions", "sshcertaskey", "binary", "nullbytes"}}
 AllKeys == GoodKeys \cup WeakKeys \cup MoreGoodKeys \cup BadEncodings
 
